@@ -7,13 +7,53 @@ because the runs against changed code overwrite it (committed evidence must come
 import json, os, re, subprocess, sys, time
 
 ROOT = os.path.dirname(os.path.dirname(os.path.abspath(__file__)))
-REPO = "/repo"
+REPO = os.environ.get("VERIF_REPO", "/repo")   # a scratch worktree when run as a parallel worker (see sweep_parallel)
 
 def sh(cmd, **kw):
     return subprocess.run(cmd, shell=True, capture_output=True, text=True, **kw)
 
+def sweep_parallel(n, only):
+    """n workers, each with its own copy of /verif (caches included) and its own worktree of /repo under /tmp/sw"""
+    import shutil
+    seeds = [d for d in sorted(os.listdir(f"{ROOT}/seeded")) if os.path.exists(f"{ROOT}/seeded/{d}/patch.diff")
+             and (not only or any(d.startswith(o) for o in only))]
+    base = "/tmp/sw"
+    procs = []
+    for i in range(n):
+        w = f"{base}/w{i}"
+        sh(f"git -C /repo worktree remove --force {w}/repo; rm -rf {w}; mkdir -p {w}")
+        sh(f"rsync -a --exclude replays {ROOT}/ {w}/verif/")
+        r = sh(f"git -C /repo worktree add --detach {w}/repo HEAD")
+        if r.returncode != 0:
+            sys.exit(r.stderr)
+        share = seeds[i::n]
+        if not share:
+            continue
+        env = dict(os.environ, VERIF_REPO=f"{w}/repo")
+        procs.append((w, subprocess.Popen([sys.executable, f"{w}/verif/tools/seed_sweep.py"] + share, env=env,
+                                          stdout=open(f"{w}/log", "w"), stderr=subprocess.STDOUT)))
+    rows = []
+    for w, p in procs:
+        p.wait()
+        for l in open(f"{w}/verif/seeded/RESULTS.md"):
+            if l.startswith("| C"):
+                rows.append(l)
+    with open(f"{ROOT}/seeded/RESULTS.md", "w") as f:
+        f.write("# Seeded changes vs. checks (written by tools/seed_sweep.py)\n\n| seed | property | result | first message | s |\n|---|---|---|---|---|\n")
+        f.writelines(sorted(rows))
+    for i in range(n):
+        sh(f"git -C /repo worktree remove --force {base}/w{i}/repo; rm -rf {base}/w{i}")
+    missed = [r for r in rows if "MISSED" in r]
+    print(f"{len(rows)} seeds, {len(missed)} missed")
+    for r in missed:
+        print(r.strip())
+    return 1 if missed else 0
+
+
 def main():
     only = sys.argv[1:]
+    if only and only[0] == "--workers":
+        return sweep_parallel(int(only[1]), only[2:])
     if sh(f"git -C {REPO} status --porcelain --untracked-files=no").stdout.strip():
         sys.exit("/repo has local modifications; refusing")
     rows = []
@@ -45,7 +85,8 @@ def main():
         finally:
             sh(f"git -C {REPO} checkout -- .")
         print(rows[-1], flush=True)
-    sh("git checkout -- evidence", cwd=ROOT)
+    if REPO == "/repo":
+        sh("git checkout -- evidence", cwd=ROOT)
     with open(f"{ROOT}/seeded/RESULTS.md", "w") as f:
         f.write("# Seeded changes vs. checks (written by tools/seed_sweep.py)\n\n| seed | property | result | first message | s |\n|---|---|---|---|---|\n")
         for d, prop, res, msg, t in rows:
